@@ -92,7 +92,9 @@ func wireFormatIs(c *Ctx, constNames ...string) CondM {
 	}
 }
 
-func runC18(c *Ctx) {
+func runC18(c *Ctx) { runC18Core(c) }
+
+func runC18Core(c *Ctx) {
 	fn := c.Fn("C18.O1", "rec.(*Reader).nextChunk")
 	if fn == nil {
 		return
